@@ -1,10 +1,104 @@
-//! C02 — (stub; filled in during the build phase)
+//! C02 — source-to-AST fidelity: the AST says exactly what the source says, whatever the layout.
 
 use super::PropMeta;
 use crate::engine::*;
+use crate::model::run::*;
+use crate::model::tree::*;
+use crate::util::*;
+use serde_json::Value;
 
-pub fn meta(_m: &mut PropMeta) {}
+pub fn meta(m: &mut PropMeta) {
+    m.rule = "model programs are generated from a generative model of the grammar (40-construct definition alphabet: every definition kind with every modifier, members with tags/optionality/values/attributes/doc comments, nested anonymous types, aliases, escaped keyword identifiers; all construct sequences up to the depth bound in 4 module scopes; every type expression up to the nesting bound in 10 type positions; all well-formed enumerator value sequences of length <= 3; integer spellings in 3 bases with underscores and signs at range boundaries; all string literals up to the atom bound as attribute arguments; every attribute form in 12 positions; tiny programs under EVERY assignment of separators to their token gaps), rendered under layout strategies (9 separator kinds incl. comments, CRLF, tabs, multi-byte comments, no-space; optional commas none/between/trailing), compiled by the real compiler, and the AST observed through the public API is compared field by field with the model (module, file attributes, definition list in order, members, modifiers, tags, optionality, enumerator values, attributes with unescaped arguments, type structure with the bound definition of every name, doc comment text). distinct = distinct rendered inputs; non-trivial = the program has at least one member and one non-default feature (tag, optional, attribute, modifier, explicit value, nested or named type).";
+    m.explanation = "bounded-exhaustive program x layout enumeration; the expected AST is known by construction (the model), so the oracle is independent of slicec's lexer and parser";
+    m.quick_bound = "construct sequences: depth 1 x 30 layouts x 4 scopes, depth 2 x 6 layouts x 4 scopes, depth 3 with rotating layout/scope; type nesting 2; string atoms <= 3; per-gap layouts over the first 6 gaps";
+    m.thorough_bound = "construct sequences: depth 3 x 6 layouts x 4 scopes; type nesting 2; string atoms <= 4; per-gap layouts over the first 8 gaps";
+}
 
-pub fn families(_tier: &str) -> Vec<Box<dyn Family>> {
-    vec![]
+pub struct Fidelity {
+    pub inner: Box<dyn ProgFamily>,
+}
+
+fn nondefault(n: &Node) -> bool {
+    let own = match n.kind {
+        "attr" | "fileattr" | "doc" => true,
+        "field" | "param" | "ret" => n.get("tag") != Some("none") || n.get("stream") == Some("true"),
+        "type" => n.get("optional") == Some("true") || !n.get("is").unwrap_or("").starts_with("prim:"),
+        "struct" | "enum" => n.get("compact") == Some("true") || n.get("unchecked") == Some("true"),
+        "enumerator" => n.get("explicit") == Some("true") || n.get("has_field_list") == Some("true"),
+        "operation" => n.get("idempotent") == Some("true"),
+        _ => false,
+    };
+    own || n.children.iter().any(nondefault)
+}
+fn has_member(n: &Node) -> bool {
+    matches!(n.kind, "field" | "operation" | "enumerator" | "alias") || n.children.iter().any(has_member)
+}
+
+impl Family for Fidelity {
+    fn name(&self) -> String {
+        self.inner.name()
+    }
+    fn len(&self) -> u64 {
+        self.inner.len()
+    }
+    fn describe(&self, idx: u64) -> Value {
+        describe_case(&self.inner.get(idx))
+    }
+    fn run(&self, idx: u64) -> CaseOut {
+        let case = self.inner.get(idx);
+        let fam = self.inner.name();
+        let fam = fam.split('/').next().unwrap().to_string();
+        let rendered = render_program(&case.program, &case.layout);
+        let mut out = CaseOut::new(case_hash(&rendered));
+        out.validated = 1;
+        out.nontrivial = rendered.iter().any(|r| has_member(&r.tree) && nondefault(&r.tree));
+        let expected: Vec<Node> = rendered.iter().map(|r| r.tree.clone()).collect();
+        let texts: Vec<String> = rendered.iter().map(|r| r.text.clone()).collect();
+        match compile_rendered(rendered, None) {
+            Err((loc, msg)) => {
+                out.class = "panic".into();
+                out.violate(format!("c02/{fam}/panic@{loc}"), format!("compiling a well-formed program panicked at {loc}: {msg}\n--- input ---\n{}", texts.join("\n--- next file ---\n")));
+            }
+            Ok(c) => {
+                let errs = c.errors();
+                if !errs.is_empty() {
+                    out.class = format!("rejected:{}", errs[0].code);
+                    out.violate(
+                        format!("c02/{fam}/well-formed-program-rejected/{}", errs[0].code),
+                        format!("a well-formed program was rejected: {} {} at {:?}\n--- input ---\n{}", errs[0].code, errs[0].message, errs[0].span, texts.join("\n--- next file ---\n")),
+                    );
+                    return out;
+                }
+                if !case.may_warn {
+                    if let Some(w) = c.warnings().first() {
+                        out.violate(format!("c02/{fam}/unexpected-warning/{}", w.code), format!("unexpected warning {} {} at {:?}\n--- input ---\n{}", w.code, w.message, w.span, texts.join("\n--- next file ---\n")));
+                    }
+                }
+                let mut nodes = 0;
+                for (i, e) in expected.iter().enumerate() {
+                    let o = match guarded(|| crate::model::observe::file(&c.files[i])) {
+                        Ok(o) => o,
+                        Err((loc, msg)) => {
+                            out.violate(format!("c02/{fam}/observer-panic@{loc}"), format!("walking the AST through the public API panicked at {loc}: {msg}\n--- input ---\n{}", texts[i]));
+                            continue;
+                        }
+                    };
+                    nodes += o.count();
+                    if let Some(d) = diff(e, &o) {
+                        out.violate(
+                            format!("c02/{fam}/ast-differs{}", d.path),
+                            format!("file {i}: AST differs from the source at {}: {} expected {:?}, observed {:?}\n--- input ---\n{}", d.path_named, d.what, d.expected, d.observed, texts[i]),
+                        );
+                    }
+                }
+                out.steps = nodes as u64;
+                out.class = format!("accepted:{}-nodes", (nodes / 10) * 10);
+            }
+        }
+        out
+    }
+}
+
+pub fn families(tier: &str) -> Vec<Box<dyn Family>> {
+    crate::model::families::program_families(tier).into_iter().map(|f| Box::new(Fidelity { inner: f }) as Box<dyn Family>).collect()
 }
